@@ -87,11 +87,35 @@ PARTIAL_ORDERS = [k for k in KINDS] + ["".join(p) for p in itertools.permutation
 
 
 # ----------------------------------------------------------------------------- data sets
+EXACT_KINDS = ("dyadic", "lattice", "clusters", "offset", "dups")     # hand-written loops agree bitwise with Eigen's
+
+
+def shape_of(ds):
+    """'' for the usual shape (fewer features than samples), else a tag"""
+    return ":D>N" if ds["D"] > ds["N"] else ":D=N" if ds["D"] == ds["N"] else ""
+
+
 def gen_dataset(rng, kind, n, dim):
-    """sample-major list of floats; 'dyadic' = small integers (all dot products and squared distances exact)"""
+    """sample-major list of floats; 'dyadic' = small integers (all dot products and squared distances exact).
+    The SHAPE is free: dim < n (the usual one), dim == n and dim > n (more features than samples: the feature matrix
+    handed to the matrix form is then TALL, and only the matrix form can mistake features for samples)."""
     while True:
         if kind == "dyadic":
             pts = [[float(rng.randint(-7, 7)) for _ in range(dim)] for _ in range(n)]
+        elif kind == "offset":
+            # a large common offset relative to the spread (2^20 against +-7), still dyadic: every product, squared
+            # difference and their sums over <= 64 features stay below 2^53, so the hand-written loops are exact
+            pts = [[float(rng.randint(-7, 7) + 1048576) for _ in range(dim)] for _ in range(n)]
+        elif kind == "dups":
+            # exact duplicate samples inside otherwise generic (dyadic) data: zero distances, equal kernel rows
+            base = [[float(rng.randint(-7, 7)) for _ in range(dim)] for _ in range(n)]
+            for _ in range(max(2, n // 5)):
+                a, b = rng.randrange(n), rng.randrange(n)
+                base[b] = list(base[a])
+            pts = base
+            if len({tuple(p) for p in pts}) < n - 1:
+                return {"kind": kind, "N": n, "D": dim, "x": [v.hex() for p in pts for v in p]}
+            continue
         elif kind == "clusters":
             # two well separated groups, each larger than num_neighbors: the k-nearest-neighbour graph at the requested
             # k is disconnected and find_neighbors has to retry with more neighbours (dyadic, like "dyadic")
@@ -115,13 +139,13 @@ def add_value_tables(rng, ds):
     n, dim = ds["N"], ds["D"]
     pts = [[float.fromhex(v) for v in ds["x"][i * dim:(i + 1) * dim]] for i in range(n)]
     d2 = [[sum((a - b) ** 2 for a, b in zip(pts[i], pts[j])) for j in range(n)] for i in range(n)]
-    mind2 = min(d2[i][j] for i in range(n) for j in range(n) if i != j)
+    mind2 = min([d2[i][j] for i in range(n) for j in range(n) if i != j and d2[i][j] > 0.0] or [1.0])
     ktab, dtab = [], []
     for i in range(n):
         for j in range(n):
             k = sum(a * b for a, b in zip(pts[i], pts[j]))
             d = d2[i][j] ** 0.5
-            if i != j:
+            if i != j and d2[i][j] > 0.0:      # (exact duplicates keep K(a,b) = K(a,a): KernelDistance stays 0, not NaN)
                 k += mind2 * rng.choice([0.0, 0.03125, -0.03125, 0.0625, -0.0625, 0.125])
                 d *= rng.choice([1.0, 1.03125, 0.96875, 1.0625, 0.9375, 1.125])
             ktab.append(k.hex())
@@ -155,6 +179,10 @@ def default_params(rng, ds, variant):
          "maxit": 30, "lr": 0.5, "width": rng.choice([1.0, 2.5]), "ts": rng.choice([1, 2, 3]),
          "speg": variant.get("speg", 1), "spen": 20, "sq": 0.9, "wd": 20,
          "off": variant.get("off", rng.choice([3, 100, 1000]))}
+    if variant.get("perm"):
+        p["perm"] = rng.randint(1, 10 ** 6)    # the integers of the index sequences are permuted (families U, Y)
+    if variant.get("min"):
+        p["min"] = 1                           # only method + target dimension are set: library defaults elsewhere
     return p
 
 
@@ -165,12 +193,14 @@ def make_case(method, fam, order, entry, back, src, params):
     # index sequences handed to hand-written callbacks are shifted (element i is the integer i + off): an integer
     # data object is then not its own position either
     c["off"] = params.get("off", 0) if fam in ("U", "Y") else 0
+    if "perm" in c and fam not in ("U", "Y"):
+        del c["perm"]
     return c
 
 
 def run_line(i, c):
     keys = ["m", "fam", "back", "src", "order", "entry", "off", "d", "k", "seed", "nm", "em", "wd", "perp", "theta", "maxit",
-            "lr", "width", "ts", "speg", "spen", "sq"]
+            "lr", "width", "ts", "speg", "spen", "sq", "perm", "min"]
     return "RUN id=%d " % i + " ".join("%s=%s" % (k, c[k]) for k in keys if k in c and c[k] != "") + "\n"
 
 
@@ -178,7 +208,7 @@ def cases_for(method, needs, ds, params, tier, rng, reduced=False):
     """the call forms run for one (data set, method).  needs: string over KDF (the method's own flags).
     reduced: the reference, the chains that attach exactly the declared callbacks, tapkee::embed directly, one chain
     over objects, and the value-table stream (used for the extra data set aimed at one code path)."""
-    dy = ds["kind"] in ("dyadic", "lattice", "clusters")
+    dy = ds["kind"] in EXACT_KINDS
     src = "hand" if dy else "eigen"
     backs = ["eigen", "pre"] + (["hand"] if dy else [])
     out = [make_case(method, "M", "", "range", "eigen", src, params)]
@@ -190,6 +220,12 @@ def cases_for(method, needs, ds, params, tier, rng, reduced=False):
             for e, entry in enumerate(["range", "using"]):
                 out.append(make_case(method, "U", o, entry, backs[(e + j) % len(backs)], src, params))
     if reduced:
+        # every way of supplying the data is kept: tapkee's eigen callbacks through the chain (E) and through
+        # tapkee::embed (X), counting callbacks backed by eigen / hand-written loops / precomputed matrices (U, Y), objects (O)
+        out.append(make_case(method, "E", FULL_ORDERS[(j + 2) % 6], "range", "eigen", src, params))
+        out.append(make_case(method, "X", "KDF", "range", "eigen", src, params))
+        for i, b in enumerate(backs):
+            out.append(make_case(method, "U", FULL_ORDERS[(j + i) % 6], ["using", "range"][i % 2], b, src, params))
         out.append(make_case(method, "Y", "KDF", "range", backs[j % len(backs)], src, params))
         out.append(make_case(method, "O", FULL_ORDERS[j], "using", backs[(j + 1) % len(backs)], src, params))
         if "ktab" in ds:
@@ -366,7 +402,7 @@ def probe_adapters(ctx, exe, ds, stats):
     """every adapter class the library ships, called DIRECTLY for all ordered pairs (a, b) of the data set: the
     precomputed ones on the asymmetric value tables (the answer must be the table entry for the pair as given), the
     eigen ones on the data (against hand-written loops when the data are dyadic, operator() against the named member)"""
-    exact = ds["kind"] in ("dyadic", "lattice", "clusters")
+    exact = ds["kind"] in EXACT_KINDS
     r = ctx.run(exe, data_line(ds) + "ADAPT exact=%d\n" % (1 if exact else 0), timeout=15)
     seen = {}
     for line in r.out.splitlines():
@@ -582,6 +618,19 @@ def judge(ctx, ds, cases, results, needs, model, stats):
                 (c["fam"], c["order"], c["entry"], c["back"]) == ("U", "KDF", "range", "tab"):
             ref[(c["m"], "tab")] = r
             refidx.add(idx)
+    # is the REFERENCE the odd one out?  (all the other call forms that supply the declared callbacks agree with each
+    # other bit for bit and none of them agrees with the matrix form: then it is the matrix form that embeds something else)
+    others = {}
+    for c, r in zip(cases, results):
+        if c["fam"] != "M" and not is_table_case(c) and r["kind"] in ("OK", "EXC") and needs.get(c["m"]) is not None and \
+                set(needs[c["m"]]) <= (set(KINDS) if c["fam"] in ("E", "X", "Y") else set(c["order"])):
+            others.setdefault(c["m"], []).append(r)
+    odd_ref = {}
+    for m, rs in others.items():
+        rf = ref.get((m, "mat"))
+        if rf is not None and rf["kind"] in ("OK", "EXC") and len(rs) >= 2 and \
+                all(same_result(x, rs[0]) for x in rs[1:]) and not same_result(rs[0], rf):
+            odd_ref[m] = len(rs)
     for idx, (c, r) in enumerate(zip(cases, results)):
         m = c["m"]
         nd = needs.get(m)
@@ -594,7 +643,7 @@ def judge(ctx, ds, cases, results, needs, model, stats):
         supplied = set(KINDS) if c["fam"] in ("M", "E", "X", "Y") else set(c["order"])
         enough = set(nd) <= supplied
         stats["outcomes"][r["kind"]] = stats["outcomes"].get(r["kind"], 0) + 1
-        tag = "%s/%s/%s/%s/%s" % (c["fam"], c["order"] or "-", c["entry"], c["back"], ds["kind"])
+        tag = "%s/%s/%s/%s/%s%s" % (c["fam"], c["order"] or "-", c["entry"], c["back"], ds["kind"], shape_of(ds))
         if r["kind"] == "SKIPPED" or rf["kind"] == "SKIPPED":
             continue
         if r["kind"] in ("NOTBUILT", "BADCASE"):
@@ -610,6 +659,13 @@ def judge(ctx, ds, cases, results, needs, model, stats):
                 elif r["kind"] == "OK" and rf["kind"] == "OK":
                     why = ("%s: call form %s gives a different embedding than %s on the same data, "
                            "parameters and random stream: %s" % (m, tag, refname, first_diff(r, rf)))
+                    if not tab and m in odd_ref:
+                        why += ("  [the MATRIX form is the odd one out: all %d other call forms of this request agree with "
+                                "each other bit for bit]" % odd_ref[m])
+                    if not tab and rf["rows"] != ds["N"] and r["rows"] == ds["N"]:
+                        why += ("  [with(p).embedUsing(matrix) returned %d rows for a feature matrix of %d features x %d "
+                                "samples (one column per sample): the matrix form did not embed the samples]"
+                                % (rf["rows"], ds["D"], ds["N"]))
                     if tab:
                         why += ("  [kernel / distance are VALUE TABLES that are not symmetric; back=pretab hands them to "
                                 "tapkee as precomputed matrices, back=tab answers table[a][b] from a hand-written callback]")
@@ -816,16 +872,28 @@ def translator_self_tests(ctx):
 def plan(ctx, tier, rng, extra_search=False):
     """list of (dataset, variant)"""
     if tier == "quick" and not extra_search:
-        specs = [("dyadic", 18, 3, {"nm": "brute", "em": "dense"}),
+        specs = [("dyadic", 18, 3, {"nm": "brute", "em": "dense", "perm": 1}),
                  ("generic", 20, 4, {"nm": "covertree", "em": "dense", "speg": 0}),
-                 ("clusters", 18, 2, {"nm": "brute", "em": "dense", "reduced": 1})]
+                 ("clusters", 18, 2, {"nm": "brute", "em": "dense", "reduced": 1, "perm": 1}),
+                 # shapes: MORE FEATURES THAN SAMPLES (the feature matrix is tall), and as many features as samples
+                 ("dyadic", 16, 24, {"nm": "brute", "em": "dense", "reduced": 1}),
+                 ("generic", 17, 17, {"nm": "vptree", "em": "dense", "reduced": 1, "speg": 0, "perm": 1}),
+                 # a large common offset (2^20 against a spread of +-7), exact duplicates among the samples
+                 ("offset", 16, 3, {"nm": "covertree", "em": "dense", "reduced": 1}),
+                 ("dups", 18, 3, {"nm": "brute", "em": "dense", "reduced": 1, "perm": 1}),
+                 # every keyword but method and target dimension left to the library's defaults; ties (half-integer lattice)
+                 ("lattice", 24, 3, {"reduced": 1, "min": 1, "perm": 1})]
     else:
         specs = [("dyadic", 18, 3, {"nm": "brute", "em": "dense"}),
                  ("generic", 20, 4, {"nm": "covertree", "em": "dense", "speg": 0}),
-                 ("lattice", 16, 3, {"nm": "vptree", "em": "dense", "theta": 0.5}),
+                 ("lattice", 16, 3, {"nm": "vptree", "em": "dense", "theta": 0.5, "perm": 1}),
                  ("generic", 24, 5, {"nm": "brute", "em": "randomized"}),
-                 ("dyadic", 30, 2, {"nm": "covertree", "em": "dense", "speg": 0}),
-                 ("generic", 17, 3, {"nm": "vptree", "em": "dense"})]
+                 ("dyadic", 30, 2, {"nm": "covertree", "em": "dense", "speg": 0, "perm": 1}),
+                 ("generic", 17, 3, {"nm": "vptree", "em": "dense"}),
+                 ("lattice", 24, 3, {"reduced": 1, "min": 1}),
+                 ("generic", 25, 40, {"nm": "brute", "em": "dense", "reduced": 1}),
+                 ("lattice", 15, 16, {"nm": "covertree", "em": "dense", "reduced": 1}),
+                 ("dyadic", 19, 19, {"nm": "vptree", "em": "dense", "reduced": 1})]
         if tier != "quick" and not extra_search:
             specs += [("dyadic", 22, 4, {"nm": "vptree", "em": "dense", "d": 3, "speg": 0}),
                       ("generic", 19, 3, {"nm": "covertree", "em": "dense", "d": 1}),
@@ -834,7 +902,15 @@ def plan(ctx, tier, rng, extra_search=False):
                       ("generic", 33, 2, {"nm": "vptree", "em": "dense", "d": 2, "theta": 0.5}),
                       ("dyadic", 14, 5, {"nm": "brute", "em": "dense", "d": 3}),
                       ("clusters", 20, 3, {"nm": "vptree", "em": "dense"}),
-                      ("clusters", 18, 2, {"nm": "covertree", "em": "dense", "reduced": 1})]
+                      ("clusters", 18, 2, {"nm": "covertree", "em": "dense", "reduced": 1}),
+                      ("generic", 21, 33, {"nm": "brute", "em": "dense"}),
+                      ("dyadic", 16, 17, {"nm": "covertree", "em": "dense", "speg": 0}),
+                      ("lattice", 20, 20, {"nm": "vptree", "em": "dense", "d": 3}),
+                      ("generic", 15, 64, {"nm": "covertree", "em": "randomized", "d": 1, "reduced": 1}),
+                      ("offset", 20, 4, {"nm": "vptree", "em": "dense"}),
+                      ("dups", 22, 2, {"nm": "covertree", "em": "dense", "speg": 0, "perm": 1}),
+                      ("dups", 16, 20, {"nm": "vptree", "em": "dense", "reduced": 1}),
+                      ("generic", 100, 3, {"reduced": 1, "min": 1, "perm": 1})]
         if extra_search:
             specs = specs[2:]
     out = []
@@ -865,7 +941,8 @@ def evaluate(ctx, exe, mexe, needs, datasets, tier, rng, stats, samples):
             stats["by_back"][c["back"]] = stats["by_back"].get(c["back"], 0) + 1
             stats["by_order_len"][str(len(c["order"]))] = stats["by_order_len"].get(str(len(c["order"])), 0) + 1
         stats["datasets"].append({"kind": ds["kind"], "N": ds["N"], "D": ds["D"], "nm": params["nm"], "em": params["em"],
-                                  "k": params["k"], "seed": params["seed"]})
+                                  "k": params["k"], "seed": params["seed"], "permuted_ids": bool(params.get("perm")),
+                                  "library_defaults": bool(params.get("min"))})
         if len(samples) < 6:
             brief = {"kind": ds["kind"], "N": ds["N"], "D": ds["D"], "x": ds["x"][:6] + ["..."],
                      "ktab": ds.get("ktab", [])[:4] + ["..."], "dtab": ds.get("dtab", [])[:4] + ["..."]}
